@@ -7,7 +7,7 @@ from ..core import Acc, Violation, guarded, run_hypothesis, shard_seed
 PROPERTY = 'C07'
 RULE = ('documents produced by the independent ZINC and JSON writers of C03/C05 (so the grids hold parser-made values: '
         'fixed-offset tzinfo from zone-less date-times with whole-hour offsets, plain-dict column metadata, ints from raw JSON '
-        'numbers, version labels 2.0/3.0 and the non-official 1.0, 2.5, 3.0.0, 4.0 with data legal under the label) are parsed '
+        'numbers, version labels 2.0/3.0, their short spellings 2 and 3, and the non-official 1.0, 2.5, 3.0.0, 4.0 with data legal under the label) are parsed '
         'by hszinc; then (1) dump in both formats must not raise, (2) parsing each dump gives an equal grid (kind-strict '
         'comparator; six-decimal tolerance after a JSON hop; date-times by instant and offset), also along the chains '
         'ZINC->JSON->ZINC and JSON->ZINC->JSON, (3) dumping does not change the grid (model and row identity) and two dumps '
@@ -19,7 +19,7 @@ ASSUMPTIONS = ['zone-less date-times use whole-hour offsets -12..+14 (a zone wit
                'Bin values are not generated under the non-official labels 1.0/2.5 (which Bin spelling a 2.5 document uses is undefined)']
 FEATURES = {}
 EXHAUSTIVE_CLAIM = False
-ALIASES = {'2.0': ['2.0', '2.0', '1.0', '2.5'], '3.0': ['3.0', '3.0', '3.0.0', '4.0']}
+ALIASES = {'2.0': ['2.0', '2', '1.0', '2.5'], '3.0': ['3.0', '3', '3.0.0', '4.0']}
 
 
 def relabel(m, pick):
@@ -157,7 +157,7 @@ def run(part, args, env):
 
     def body(case):
         for m in case['grids']:
-            if m[1] in ('1.0', '2.5') and has_kind(m, ('bin',)):
+            if m[1] in ('1.0', '2.5') and has_kind(m, ('bin',)):    # ('2' and '3' equal an official version: Bin is fine)
                 acc.label('skipped:bin-under-unofficial-label')
                 return
         check(case)
